@@ -15,6 +15,7 @@ type names in mixed letter case; plus models loaded from SQL text and checked th
 """
 import copy
 import os
+import struct
 
 import meta_common as mc
 import prop_C02
@@ -22,14 +23,18 @@ from sexp import Sym, dumps
 
 PROP = 'C11'
 RULE = ('random API histories (10-80 ops) over 7 association shapes extended with attributes P (integer), U (unique_id in '
-        'random letter case), S (string) and 0-3 unique identifiers over them (also over referential attributes), then '
-        '0-4 unchecked connects and 0-6 attribute writes drawn from {None, 0, 1, 2, ""}; per state: unrestricted and '
+        'random letter case), S (string), X (real, random letter case) and 0-3 unique identifiers over them (also over '
+        'referential attributes), then 0-4 unchecked connects and 0-6 attribute writes (half of them to identifying attributes) drawn '
+        'per type from a small pool {None, 0, 1, 2, "", "a", "b"} (two thirds) and from clusters of pairwise different values that coincide under a coarser reading (reals equal to six decimals / six significant digits / '
+        'as integers / in single precision, integers equal in their low 32 or 64 bits or as floats, strings equal up to letter '
+        'case or surrounding blanks), so that "repeats an earlier identifier" is decided on close values too; per state: unrestricted and '
         'per-association / per-class checks, is_consistent, subtype check; a loaded-from-text family run through both '
         'main() functions with all -r/-k subsets; family `loaded`: the API cases with the state after the first k ops built by '
         'xtuml.ModelLoader from SQL text (meta_common.Model.from_sql). Non-trivial: at least one violation and at least one satisfied end; '
         'distinct = distinct (shape, state recipe)')
 EXHAUSTIVE = {'quick': False, 'thorough': False}
-ASSUMPTIONS = ['identifying values are compared with == only; strings are encoded as integers towards the model']
+ASSUMPTIONS = ['identifying values are compared with == only; strings (by table) and reals (by IEEE-754 bit pattern, -0.0 as 0.0, '
+               'no NaN) are encoded injectively as integers towards the model']
 CHUNK = 400
 CASE_TIMEOUT_S = 40
 _x = None
@@ -48,7 +53,33 @@ def setup(ctx):
 
 _repo_copy = None
 UID_SPELLINGS = ['unique_id', 'UNIQUE_ID', 'Unique_Id']
-STRS = {'': 1000, 'a': 1001, 'b': 1002}
+REAL_SPELLINGS = ['real', 'REAL', 'Real']
+STRS = {'': 1000, 'a': 1001, 'b': 1002, 'A': 1003, 'a ': 1004, ' a': 1005, "a'": 1006}
+
+# Family `close values` (the value dimension of the quantifier "all identifier sets with null and duplicate values"): the
+# values written into identifying attributes are drawn, per type, from clusters of pairwise DIFFERENT values (under ==, which is
+# all the statement's "repeating an earlier instance's identifier" speaks of) that coincide under a coarser reading somebody
+# might compare by instead: the persisted text ('%f': six decimals), six significant digits ('%g'), two decimals, truncation /
+# rounding to an integer, single precision, 2^53 (integers as floats), the low 32 / 64 bits of an integer, letter case and
+# surrounding blanks of a string.  Reals are given as TEXT (what a model file holds, no exponent); the value is float(text).
+REAL_CLUSTERS = [['0.0', '0.0000001', '0.0000004', '-0.0000002'],          # 0.0 is also the default of every new instance
+                 ['1.0', '1.0000001', '1.0000002', '0.9999999'],
+                 ['0.3333333', '0.33333334', '0.333'],
+                 ['1.5', '1.7', '2.5'],
+                 ['123456.7', '123456.8'],
+                 ['16777216.0', '16777217.0'],
+                 ['9007199254740992.0', '9007199254740994.0'],
+                 ['-1.5', '-1.5000001']]
+REAL_TEXTS = [t for c in REAL_CLUSTERS for t in c]
+INT_VALUES = [0, 1, 2, -1, 2 ** 32 + 1, 2 ** 53, 2 ** 53 + 1, 2 ** 64 + 2]
+UID_VALUES = [0, 1, 2, 2 ** 32 + 1, 2 ** 64 + 1, 2 ** 127 + 2]      # a UNIQUE_ID value has 128 bits
+STR_VALUES = ['', 'a', 'b', 'A', 'a ', ' a', "a'"]
+
+
+def real_value(r):
+    """a real from one of the clusters (the first two twice as often), as a float"""
+    c = r.choice(REAL_CLUSTERS + REAL_CLUSTERS[:2])
+    return float(r.choice(c))
 
 
 def make_schema(r, name):
@@ -56,7 +87,8 @@ def make_schema(r, name):
     for c in s['classes']:
         uid = r.choice(UID_SPELLINGS)
         c['attrs'] = [(a, (uid if t == 'unique_id' else t)) for a, t in c['attrs']] + \
-                     [('P', r.choice(['integer', 'INTEGER'])), ('U', uid), ('S', r.choice(['string', 'STRING']))]
+                     [('P', r.choice(['integer', 'INTEGER'])), ('U', uid), ('S', r.choice(['string', 'STRING'])),
+                      ('X', r.choice(REAL_SPELLINGS))]
         c['uid_consumers'] = None
     idents = []
     for k, c in enumerate(s['classes']):
@@ -138,12 +170,22 @@ def _api_case(r, names):
             own = [a for a in own if a not in refs]
             if not own:
                 continue
-            attr = r.choice(own)
+            # half of the writes go to an attribute of one of the class's identifiers (where there is one): that is where a
+            # value decides a count
+            inid = [a for a in own if any(k == kinds[j] and a in at for k, _, at in schema['idents'])]
+            attr = r.choice(inid if inid and r.random() < 0.5 else own)
             ty = dict(schema['classes'][kinds[j]]['attrs'])[attr].upper()
+            # two thirds of the values from the small pools (dense in nulls, genuine duplicates and permutations between
+            # attributes), one third from the clusters of close values
+            small = r.random() < 0.67
             if ty == 'STRING':
-                v = r.choice([None, '', 'a', 'b'])
+                v = r.choice([None, '', 'a', 'b'] if small else STR_VALUES)
+            elif ty == 'REAL':
+                v = r.choice([None, 0.0, 1.0, 2.0, 1.0, 2.0]) if small else real_value(r)
+            elif ty == 'UNIQUE_ID':
+                v = r.choice([None, 0, 1, 2, 1, 2] if small else UID_VALUES)
             else:
-                v = r.choice([None, 0, 1, 2, 1, 2])
+                v = r.choice([None, 0, 1, 2, 1, 2] if small else INT_VALUES)
             writes.append([j, attr, v])
         queries = [['assoc', None], ['uniq', None], ['consistent']]
         for rel in sorted(set(a['rel'] for a in schema['assocs'])) + ['R99']:
@@ -163,7 +205,7 @@ def _rest_of_generate(ctx, rng):
         r = rng.fork('load', i)
         nb = r.randint(1, 3)
         na = r.randint(1, 4)
-        brows = [[r.choice([1, 2, 3, 0]), r.choice([1, 2])] for _ in range(nb)]
+        brows = [[r.choice([1, 2, 3, 0]), r.choice([1, 2]), r.choice(r.choice(REAL_CLUSTERS[:3]))] for _ in range(nb)]
         arows = [[r.choice([1, 2, 3, 4, 0]), r.choice([0, 1, 2, 3, 7])] for _ in range(na)]
         card = r.choice([('1C', '1C'), ('MC', '1'), ('M', '1C'), ('1', '1')])
         opts = []
@@ -190,10 +232,17 @@ def _rest_of_generate(ctx, rng):
 # --------------------------------------------------------------------------- oracle
 
 def enc(v):
+    """identifying values towards the model and the recount: an integer per value, INJECTIVE within a type (two values get the
+    same integer exactly when they are == ): strings by table (unknown ones by their bytes), reals by their IEEE-754 bit
+    pattern (-0.0 == 0.0 normalised by + 0.0; no NaN is generated), integers as they are"""
     if v is None:
         return None
     if isinstance(v, str):
-        return STRS[v]
+        if v in STRS:
+            return STRS[v]
+        return 10 ** 6 + int.from_bytes(v.encode('utf-8', 'surrogatepass'), 'big')
+    if isinstance(v, float):
+        return struct.unpack('>Q', struct.pack('>d', v + 0.0))[0]
     return int(v)
 
 
@@ -297,17 +346,25 @@ def dump_sexp(d, queries):
                   [Sym('queries')] + [q(x) for x in queries]])
 
 
-LOAD_SCHEMA = {'classes': [mc.C('A', None, [('Id', 'UNIQUE_ID'), ('B_Id', 'UNIQUE_ID')]), mc.C('B', None, [('Id', 'UNIQUE_ID'), ('N', 'INTEGER')])],
+LOAD_SCHEMA = {'classes': [mc.C('A', None, [('Id', 'UNIQUE_ID'), ('B_Id', 'UNIQUE_ID')]),
+                           mc.C('B', None, [('Id', 'UNIQUE_ID'), ('N', 'INTEGER'), ('X', 'REAL')])],
                'assocs': [], 'idents': []}
 
 
 def load_case_text(case):
     cs, ct = case['card']
-    t = 'CREATE TABLE A (Id UNIQUE_ID, B_Id UNIQUE_ID);\nCREATE TABLE B (Id UNIQUE_ID, N INTEGER);\n'
+    # rows of B carry a third column X REAL (its own identifier I3), spelled in the text as drawn (REAL_CLUSTERS); cases
+    # stored before the column existed have two-element rows and get the text without it
+    real = any(len(row) > 2 for row in case['brows'])
+    t = 'CREATE TABLE A (Id UNIQUE_ID, B_Id UNIQUE_ID);\nCREATE TABLE B (Id UNIQUE_ID, N INTEGER%s);\n' % (', X REAL' if real else '')
     t += 'CREATE ROP REF_ID R1 FROM %s A (B_Id) TO %s B (Id);\n' % (cs, ct)
     t += 'CREATE UNIQUE INDEX I1 ON A (Id);\nCREATE UNIQUE INDEX I1 ON B (Id);\nCREATE UNIQUE INDEX I2 ON B (N);\n'
-    for i, n in case['brows']:
-        t += 'INSERT INTO B VALUES ("%s", %d);\n' % ('00000000-0000-0000-0000-%012d' % i, n)
+    if real:
+        t += 'CREATE UNIQUE INDEX I3 ON B (X);\n'
+    for row in case['brows']:
+        i, n = row[0], row[1]
+        t += 'INSERT INTO B VALUES ("%s", %d%s);\n' % ('00000000-0000-0000-0000-%012d' % i, n,
+                                                      (', ' + (row[2] if len(row) > 2 else '0.0')) if real else '')
     for i, b in case['arows']:
         t += 'INSERT INTO A VALUES ("%s", "%s");\n' % ('00000000-0000-0000-0000-%012d' % i, '00000000-0000-0000-0000-%012d' % b)
     return t
@@ -554,7 +611,9 @@ def run_impl(case):
                       % (got_assoc, want_assoc, d.links, d.pools)})
     if got_uniq != want_uniq:
         fails.append({'sig': 'uniq-count', 'what': 'check_uniqueness_constraint reports %d, there are %d null/repeated identifying values; '
-                      'classes %s values %s' % (got_uniq, want_uniq, d.classes, d.vals)})
+                      'classes %s values (as encoded by enc) %s%s' % (got_uniq, want_uniq, d.classes, d.vals,
+                                                                   (' after the attribute writes %r' % (case['writes'],)) if case.get('writes') else
+                                                                   (' rows of B %r' % (case['brows'],)) if case.get('brows') else '')})
     if cons != (want_assoc == 0 and want_uniq == 0):
         fails.append({'sig': 'consistent-iff', 'what': 'is_consistent gives %r with %d association and %d identifier violations' % (cons, want_assoc, want_uniq)})
     if case['fam'] in ('api', 'loaded'):
@@ -569,8 +628,123 @@ def run_impl(case):
                     fails.append({'sig': 'subtype-count', 'what': 'check_subtype_integrity reports %d, %d supertype instances lack a subtype' % (o, want)})
     nontrivial = (want_assoc + want_uniq) > 0
     stats['violating_states' if nontrivial else 'consistent_states'] = 1
+    if case['fam'] in ('api', 'loaded'):
+        stats.update(_value_stats(case['schema'], d))
     return {'obs': obs, 'd_fail': fails[:3], 'nontrivial': nontrivial, 'key': dumps([str(case)]), 'stats': stats,
             'model_line': dump_sexp(d, case_queries)}
+
+
+def _value_stats(schema, d):
+    """distribution of the value dimension: states in which two instances of a class differ in a REAL / INTEGER / STRING
+    identifying attribute only beyond a coarser reading of the value (see REAL_CLUSTERS)"""
+    out = {}
+    for k, c in enumerate(schema['classes']):
+        types = dict((n, t.upper()) for n, t in c['attrs'])
+        for (kk, _, attrs) in schema['idents']:
+            if kk != k:
+                continue
+            for a in attrs:
+                vs = set(v for v in (d.val(x, a) for x in d.pools[k]) if v is not None)
+                if len(vs) < 2:
+                    continue
+                if types.get(a) == 'REAL':
+                    out['identifier_over_distinct_reals'] = 1
+                    fl = [struct.unpack('>d', struct.pack('>Q', v))[0] for v in vs]
+                    if len(set('%f' % f for f in fl)) < len(fl):
+                        out['identifier_reals_equal_to_6_decimals'] = 1
+                    if len(set(int(f) for f in fl)) < len(fl):
+                        out['identifier_reals_equal_as_integers'] = 1
+                elif types.get(a) == 'STRING':
+                    inv = dict((n, t) for t, n in STRS.items())
+                    if len(set(inv.get(v, '?').strip().upper() for v in vs)) < len(vs):
+                        out['identifier_strings_equal_up_to_case_or_blanks'] = 1
+                elif len(set(v % 2 ** 32 for v in vs)) < len(vs) or len(set(float(v) for v in vs)) < len(vs):
+                    out['identifier_integers_equal_in_low_bits_or_as_floats'] = 1
+    return out
+
+
+def _without_instance(case, j):
+    """the case without the j-th created instance: its `new` op and every op / connect / write naming it are dropped, later
+    creation indices move down"""
+    c = copy.deepcopy(case)
+    seen, at = -1, None
+    for n, o in enumerate(c['ops']):
+        if o[0] == 'new':
+            seen += 1
+            if seen == j:
+                at = n
+                break
+    if at is None:
+        return None
+    f = lambda i: i - 1 if i > j else i
+    ops, dropped_in_prefix = [], 0
+    for n, o in enumerate(c['ops']):
+        gone = n == at or (o[0] == 'delete' and o[1] == j) or (o[0] in ('relate', 'unrelate') and j in (o[1], o[2]))
+        if gone:
+            if n < c.get('prefix', 0):
+                dropped_in_prefix += 1
+            continue
+        if o[0] == 'delete':
+            o = ['delete', f(o[1])]
+        elif o[0] in ('relate', 'unrelate'):
+            o = [o[0], f(o[1]), f(o[2])] + list(o[3:])
+        ops.append(o)
+    c['ops'] = ops
+    if 'prefix' in c:
+        c['prefix'] -= dropped_in_prefix
+    c['forced'] = [[ai, f(x), f(y)] for ai, x, y in c['forced'] if j not in (x, y)]
+    c['writes'] = [[f(i), a, v] for i, a, v in c['writes'] if i != j]
+    return c
+
+
+def shrink_candidates(case):
+    """smaller cases of the state-recipe families: fewer writes / unchecked connects / identifiers / restricted queries / ops /
+    instances (the first three queries are the unrestricted checks the verdict reads and stay)"""
+    fam = case.get('fam')
+    if fam == 'load':
+        for key in ('arows', 'brows', 'opts'):
+            for i in range(len(case[key])):
+                if key == 'brows' and len(case[key]) == 1:
+                    continue
+                c = copy.deepcopy(case)
+                del c[key][i]
+                yield c
+        return
+    if fam not in ('api', 'loaded'):
+        return
+    k0 = case.get('prefix', 0) if case.get('route') == 'sql' else 0
+
+    def drop(key, idxs):
+        c = copy.deepcopy(case)
+        c[key] = [e for n, e in enumerate(c[key]) if n not in idxs]
+        if key == 'ops' and 'prefix' in c:
+            c['prefix'] -= sum(1 for n in idxs if n < k0)
+        return c
+    rest = [n for n, o in enumerate(case['ops']) if o[0] != 'new' and n >= k0]
+    if len(rest) > 1:
+        yield drop('ops', set(rest))
+        yield drop('ops', set(rest[len(rest) // 2:]))
+        yield drop('ops', set(rest[:len(rest) // 2]))
+    if len(case['forced']) > 1:
+        yield drop('forced', set(range(len(case['forced']))))
+    if len(case['queries']) > 3:
+        yield drop('queries', set(range(3, len(case['queries']))))
+    for key in ('writes', 'forced'):
+        for i in range(len(case[key])):
+            yield drop(key, {i})
+    for i in range(len(case['schema']['idents'])):
+        c = copy.deepcopy(case)
+        del c['schema']['idents'][i]
+        yield c
+    for i in range(3, len(case['queries'])):
+        yield drop('queries', {i})
+    for n, o in enumerate(case['ops']):
+        if o[0] != 'new':
+            yield drop('ops', {n})
+    for j in reversed(range(sum(1 for o in case['ops'] if o[0] == 'new'))):
+        c = _without_instance(case, j)
+        if c is not None:
+            yield c
 
 
 def model_obs(case, ans):
